@@ -73,6 +73,9 @@ def explicit(tokens):
 
 
 def has_plus_minus(tokens):
+    for i in range(len(tokens) - 1):
+        if tokens[i] == "(" and tokens[i + 1] == ")":
+            return True  # '()' is Python's empty tuple, not arithmetic: outside the property
     for i in range(len(tokens) - 2):
         if tokens[i] == "+" and tokens[i + 1] == "/" and tokens[i + 2] == "-":
             return True
